@@ -106,3 +106,20 @@ def stack_chain_cases(kmax=5, extra_upto=3):
                             extra = (2, x, i, j)
                             if extra not in rules:
                                 yield (tuple(sorted(rules + [extra])),)
+
+
+def marked_pair_cases():
+    """S -> A[i]; A -> B C; any subset of three consumption rules for B and of three for C (two rules for one index and
+    non-terminal, none for the other index, ...); D, E, F -> a.  The marked set of A has two members whose consumption
+    rules for the pushed index are unbalanced."""
+    S, A, B, C, D, E, F = range(7)
+    ends = [(0, D, 0, 0), (0, E, 0, 0), (0, F, 0, 0)]
+    forB = [(2, 0, B, D), (2, 0, B, E), (2, 1, B, D)]
+    forC = [(2, 0, C, F), (2, 1, C, F), (2, 0, C, D)]
+    for i in range(2):
+        for mb in range(8):
+            for mc in range(8):
+                rules = [(1, S, A, i), (3, A, B, C)] + ends
+                rules += [r for k, r in enumerate(forB) if mb >> k & 1]
+                rules += [r for k, r in enumerate(forC) if mc >> k & 1]
+                yield (tuple(sorted(rules)),)
